@@ -1,11 +1,8 @@
 import DnsVerif.Props.C18
 #print axioms DnsVerif.Props.C18.keys_strictly_increasing
 #print axioms DnsVerif.Props.C18.keys_strictly_increasing_wire
-#print axioms DnsVerif.Props.C18.decode_recovers_declared_partial
-#print axioms DnsVerif.Props.C18.decode_recovers_declared_fails_dropped
-#print axioms DnsVerif.Props.C18.decode_recovers_declared_fails_alpn
-#print axioms DnsVerif.Props.C18.alpn_empty_id_wire_malformed
-#print axioms DnsVerif.Props.C18.alpn_long_id_malformed_and_totext_panics
-#print axioms DnsVerif.Props.C18.mandatory_rejects_partial
-#print axioms DnsVerif.Props.C18.mandatory_rejects_full_fails
+#print axioms DnsVerif.Props.C18.accepted_is_valid_declaration
+#print axioms DnsVerif.Props.C18.decode_recovers_declared
+#print axioms DnsVerif.Props.C18.mandatory_rejects
 #print axioms DnsVerif.Props.C18.text_wire_idempotent_full_fails
+#print axioms DnsVerif.Props.C18.text_wire_idempotent_partial
